@@ -3,11 +3,11 @@
 NAME=$1; R=$2
 SRC=/tmp/refac_out/$NAME/$R
 [ -f $SRC/patch.diff ] || { echo "no patch $NAME/$R"; exit 2; }
-W=/tmp/refrepo_$NAME$R
+W=/tmp/refrepo_$NAME$R$$
 rm -rf $W; mkdir -p $W; cp -r /repo/src $W/
 cd $W && git init -q . >/dev/null 2>&1
 git apply --whitespace=nowarn $SRC/patch.diff 2>/dev/null || patch -p1 -s < $SRC/patch.diff || { echo "$NAME/$R patch does not apply"; exit 3; }
-cd /verif
+VD=${VERIF_EVAL_DIR:-/verif}; cd $VD
 ALARMS=""
 for p in $(/venv/bin/python -c "import json;print(' '.join(c['property_id'] for c in json.load(open('MANIFEST.json'))['checks']))"); do
   out=$(VERIF_REPO=$W ./check $p 2>&1)
